@@ -495,9 +495,11 @@ func cmpValue(t *cqlT, v *val, got reflect.Value, isKey bool, strict bool, probs
 			for i := range v.kids {
 				ev := g.MapIndex(reflect.ValueOf(t.names[i]))
 				if !ev.IsValid() {
-					// absent key: acceptable only for a null field
+					// absent key: acceptable only for a null field (recorded apart: the caller decides)
 					if !v.kids[i].null {
 						probs.add("entry-missing")
+					} else {
+						probs.add("null-key-absent")
 					}
 					continue
 				}
@@ -520,6 +522,9 @@ func (p *probset) add(k string) {
 }
 
 func classify(probs probset, prefix string) string {
+	// a null UDT field represented by an absent map key is tolerated except where the caller looks
+	// for it explicitly (short UDT values must decode like explicit nulls: key present, value nil)
+	delete(probs, "null-key-absent")
 	if len(probs) == 0 {
 		return ""
 	}
